@@ -61,11 +61,20 @@ func h02() {
 
 	// 3b. the decoded value does not depend on how it was iterated before:
 	// an iteration abandoned after the first element, and a re-entrant one
+	// (on a fresh decode, so that the abandoned iteration is the first one,
+	// and once more on the value that has already been iterated in full)
+	dv3, err := Default.Decode(bytes.NewReader(spec), t)
+	verifAssert(err == nil, "decode-ok")
+	zzPartial(dv3)
 	zzPartial(dv)
-	dn3, err := zzFromWire(dv)
+	dn3, err := zzFromWire(dv3)
 	verifAssert(err == nil, "decode-again-after-partial-iteration-ok")
 	same, diff = zzDiff(dn3, v)
 	verifAssert(same && diff == 0, "decode-value-stable-under-partial-iteration")
+	dn4, err := zzFromWire(dv)
+	verifAssert(err == nil, "decode-again-ok")
+	same, diff = zzDiff(dn4, v)
+	verifAssert(same && diff == 0, "decode-value-stable-under-repeated-iteration")
 
 	// 4. streaming reader (non-seekable source)
 	os := &zzOneShot{b: spec}
